@@ -293,6 +293,15 @@ def gen_server(rng, j, dims):
         sv["env"] = env
         dims[:] = [d for d in dims if not d.startswith(("env:", "witness:"))]
         dims += ["env:with-own-PATH", "witness:answers", "command:bare-name"]
+    elif rng.random() < 0.08:
+        # a server configured QUIET (its own log level says errors only) that is talkative on stderr all the same: launching it
+        # and reaching the handshake must not depend on how much it writes there
+        sv["command"] = f"{D}/s{j}/chatty-{j}"
+        env = dict(sv.get("env") or {})
+        env[rng.choice(["LOG_LEVEL", "LOGGING_LEVEL"])] = rng.choice(["ERROR", "critical", "Error", "CRITICAL"])
+        sv["env"] = env
+        dims[:] = [d for d in dims if not d.startswith(("env:", "witness:"))]
+        dims += ["env:quiet-log-level", "witness:answers", "witness:chatty-on-stderr", "command:path"]
     else:
         dims.append("command:path")
     items = list(sv.items())
@@ -944,7 +953,7 @@ def record(ctx, fails):
 REQUIRED_BUCKETS = ["backend:pydantic", "backend:fallback", "process-locale:utf-8", "process-locale:legacy-ascii", "servers:1", "servers:4", "args:absent", "args:empty-list", "arg:empty-string", "arg:unicode", "arg:quote",
                     "arg:whitespace", "env:absent", "env:null", "env:empty", "timeout:absent", "timeout:int", "timeout:float",
                     "timeout:string-number", "extra-server-keys:yes", "extra-top-keys:yes", "file:raw-utf8", "file:ascii-escapes",
-                    "witness:answers", "witness:refuses", "hostenv:patched", "source:missing-file", "source:invalid-json",
+                    "witness:answers", "witness:refuses", "witness:chatty-on-stderr", "hostenv:patched", "source:missing-file", "source:invalid-json",
                     "source:valid-zero-servers", "entry-point:loader", "entry-point:cli", "entry-point:runner",
                     "entry-point:loader+transport", "loader-outcome:raise-FNF", "loader-outcome:raise-JSON", "loader-outcome:raise-VAL",
                     "loader-outcome:ok", "file-history:rewritten-in-place-after-a-load", "file-history:fresh", "command:bare-name", "command:path"]
